@@ -152,6 +152,37 @@ def rule_r4(facts, col):
                     fp = self_field_path(f[1].args[0])
                     if fp and fp[-1] in carry:
                         ok = True
+            # ... and the bytes read are a whole number of samples: `n / size` samples are emitted and the staging buffer is dropped,
+            # so a remainder (n % size bytes of the next sample) would be lost
+            whole = False
+            for f in facts_at(body, bb):
+                xs = []
+                if f[0] == "IntEq" and f[2] == 0:
+                    xs = [f[1]]
+                elif f[0] == "Eq":
+                    zl, zr = peel(f[1], through_try=False), peel(f[2], through_try=False)
+                    if zr.k == "const" and zr.v == 0:
+                        xs = [f[1]]
+                    elif zl.k == "const" and zl.v == 0:
+                        xs = [f[2]]
+                elif f[0] in ("Bool", "BoolVal") and f[2] is True and f[1] is not None and (getattr(f[1], "q", None) or "").split("::")[-1] == "is_multiple_of":
+                    pa = peel(f[1].args[0]) if f[1].args else None
+                    if pa is not None and pa.k == "call" and pa.bb in reads and same_expr(peel(f[1].args[1], through_try=False), peel(pc.b, through_try=False)):
+                        whole = True
+                for x in xs:
+                    px = peel(x, through_try=False)
+                    if px.k == "bin" and px.op == "Rem":
+                        pa = peel(px.a)
+                        if pa.k == "call" and pa.bb in reads and same_expr(peel(px.b, through_try=False), peel(pc.b, through_try=False)):
+                            whole = True
+            if pc.op == "Div":
+                if whole:
+                    col.ok("C14.R4", key + ":whole", body.where(bb), "emitted directly only when the read size is a multiple of the sample size")
+                else:
+                    col.bad("C14.R4", key + ":whole", body.where(bb),
+                            "read()/size samples are produced straight from the staging buffer, which is then dropped, without establishing "
+                            "read() %% size == 0 on this path: the trailing bytes of a read that ends inside a sample are lost and every "
+                            "later sample is parsed from the wrong offset", {})
             if ok:
                 col.ok("C14.R4", key, body.where(bb), "freshly read bytes are emitted directly only when the carry buffer is empty")
             else:
@@ -159,6 +190,161 @@ def rule_r4(facts, col):
                         "samples are produced straight from a fresh read() (count derived from the read size) without establishing that the "
                         "partial-sample carry buffer self.%s is EMPTY: with a partial sample pending the new bytes are parsed at the wrong "
                         "boundary (garbage samples; stale bytes later joined to unrelated data)" % carry[0], {})
+
+
+BUFFER_VIEWS = {"index", "index_mut", "deref", "deref_mut", "as_slice", "as_mut_slice", "as_ref", "as_mut", "borrow", "borrow_mut",
+                "len", "is_empty", "capacity", "as_ptr", "as_mut_ptr"}
+STD_READ = "std::io::Read::read"
+
+
+def _mentions_outside(e, alloc_bb, read_bb, depth=0):
+    """e contains the staging buffer allocated at alloc_bb other than as the operand of the read() at read_bb (the read's own
+    result - `n`, `n?` - is computed 'from' the buffer but is not its contents)"""
+    if e is None or depth > 40:
+        return False
+    if e.k == "call" and getattr(e, "bb", None) == read_bb:
+        return False
+    if e.k == "call" and e.q == "std::vec::from_elem" and getattr(e, "bb", None) == alloc_bb:
+        return True
+    for c in (e.a, e.b):
+        if c is not None and _mentions_outside(c, alloc_bb, read_bb, depth + 1):
+            return True
+    for lst in (e.args, e.alts):
+        for c in (lst or []):
+            if _mentions_outside(c, alloc_bb, read_bb, depth + 1):
+                return True
+    return False
+
+
+def rule_r10(facts, col, rule_id="C14.R10"):
+    """what was read is kept: after an io::Read::read() into a `vec![0; n]` staging buffer, every non-error path of work() on
+    which the result is not 0 hands the buffer's contents on (parses them, appends them to the carry buffer, copies them into
+    the write window) before it returns.  A path that returns without touching the buffer has taken bytes from the file /
+    socket and thrown them away: the stream continues with a hole."""
+    for body in facts.impl_bodies(BLOCK_TRAIT, "work"):
+        k = 0
+        for bb, t in body.calls_to(STD_READ):
+            if len(t["args"]) < 2 or t.get("sp", {}).get("x"):
+                continue
+            key = "%s:read#%d" % (body.q, k)
+            k += 1
+            buf = body.operand_expr(t["args"][1])
+            alloc = [x for x in walk(buf) if x.k == "call" and x.q == "std::vec::from_elem"]
+            if not alloc:
+                col.silent(rule_id, key, body.where(bb), "read target is not a vec![0; n] staging buffer")
+                continue
+            abb = alloc[0].bb
+            uses = set()
+            for ubb, ut in body.calls():
+                if ubb == bb or (ut["f"].get("name") in BUFFER_VIEWS):
+                    continue
+                for a in ut["args"]:
+                    if _mentions_outside(body.operand_expr(a), abb, bb):
+                        uses.add(ubb)
+            # paths on which read() returned 0 have nothing to keep
+            zero = set()
+            for (sbb, tgt), f in edge_facts(body):
+                x = None
+                if f[0] == "IntEq" and f[2] == 0:
+                    x = f[1]
+                elif f[0] == "Eq":
+                    zl, zr = peel(f[1], through_try=False), peel(f[2], through_try=False)
+                    x = f[1] if (zr.k == "const" and zr.v == 0) else f[2] if (zl.k == "const" and zl.v == 0) else None
+                if x is not None:
+                    px = peel(x)
+                    if px.k == "call" and px.bb == bb:
+                        zero.add(tgt)
+            okrets = {rb for rb, si, e in assigns_to_return(body)
+                      if not ((e.k == "agg" and e.variant == "Err") or (e.k == "call" and (e.q or "").endswith("from_residual")))}
+            start = body.term(bb).get("t")
+            lost = okrets & reach_avoiding(body, start, uses | zero) if start is not None else set()
+            if lost:
+                col.bad(rule_id, key, body.where(bb),
+                        "work() can return Ok (%s) after this read() returned a non-zero count without handing the staging buffer on "
+                        "(no parse, no append to the carry buffer, no copy into the write window on that path): the bytes are gone from "
+                        "the file/socket and appear nowhere in the output" % body.where(sorted(lost)[0]), {})
+            else:
+                col.ok(rule_id, key, body.where(bb), "every non-error path with a non-zero read hands the staging buffer on (%d use sites)" % len(uses))
+
+
+_ARRLEN = re.compile(r"\[u8; (\d+)\]")
+
+
+def rule_r11(facts, col, rule_id="C14.R11"):
+    """the AU encoder's header agrees with itself and with the decoder: (a) the number of bytes AuEncode::new() appends to the
+    header equals the data offset it writes into word 1 (the decoder skips exactly that many bytes before the samples);
+    (b) the magic it writes into word 0 is the constant the decoder compares the first word with; (c) every format check of
+    the decoder rejects on MISMATCH: an Err return whose controlling test compares a decoded header word is on the
+    not-equal side of that test."""
+    enc = [b for b in facts.bodies if b.q == "au::AuEncode::new"]
+    dec = [b for b in facts.impl_bodies(BLOCK_TRAIT, "work") if b.self_adt == "au::AuDecode"]
+    if not enc or not dec:
+        col.bad(rule_id, "au:anchors", "src/au.rs", "AuEncode::new / AuDecode::work not found", {})
+        return
+    enc, dec = enc[0], effects.work_view(facts, dec[0], methods=True)
+    words = []
+    total = 0
+    sized = True
+    for bb, t in sorted(enc.calls(), key=lambda x: ((x[1].get("sp") or {}).get("l", 0), x[0])):
+        if t["f"].get("name") not in ("extend", "extend_from_slice") or len(t["args"]) < 2:
+            continue
+        m = _ARRLEN.search((t.get("argtys") or ["", ""])[1])
+        if not m:
+            sized = False
+            continue
+        total += int(m.group(1))
+        a = peel(enc.operand_expr(t["args"][1]), through_try=False)
+        val = None
+        if a.k == "call" and CODEC.match(a.q or "") and a.args:
+            c = peel(a.args[0], through_try=False)
+            if c.k == "const" and isinstance(c.v, int):
+                val = c.v
+        words.append((bb, int(m.group(1)), val))
+    if not sized or len(words) < 2:
+        col.silent(rule_id, "au:header-length", enc.where(), "header is not built from fixed-size pieces")
+    elif words[1][2] is None:
+        col.silent(rule_id, "au:header-length", enc.where(words[1][0]), "data offset word is not a constant")
+    elif words[1][2] == total:
+        col.ok(rule_id, "au:header-length", enc.where(words[1][0]), "header is %d bytes and word 1 (data offset) says %d" % (total, total))
+    else:
+        col.bad(rule_id, "au:header-length", enc.where(words[1][0]),
+                "AuEncode::new() builds a header of %d bytes but writes %d as the data offset: a decoder (AuDecode included) skips to "
+                "byte %d and reads the samples from the wrong place" % (total, words[1][2], words[1][2]), {})
+    magic = words[0][2] if words else None
+    cmp_consts = set()
+    checks = 0
+    for rb, si, e in assigns_to_return(dec):
+        if not (e.k == "agg" and e.variant == "Err"):
+            continue
+        best = None
+        for edge, f in facts_at_e(dec, rb):
+            if f[0] in ("Eq", "Ne") and (best is None or dec.dominates(best[0][0], edge[0])):
+                decoded = any(x.k == "call" and CODEC.match(x.q or "") for side in f[1:3] if hasattr(side, "k") for x in walk(side))
+                if decoded:
+                    best = (edge, f)
+        if best is None:
+            continue
+        checks += 1
+        f = best[1]
+        for side in f[1:3]:
+            c = peel(side, through_try=False)
+            if c.k == "const" and isinstance(c.v, int) and c.v > 0xFFFFFF:
+                cmp_consts.add(c.v)
+        key = "au:reject#%d" % checks
+        if f[0] == "Ne":
+            col.ok(rule_id, key, dec.where(rb), "format error raised on the not-equal side of the header comparison")
+        else:
+            col.bad(rule_id, key, dec.where(rb),
+                    "the decoder returns a format error on the path where the decoded header word EQUALS the expected value (and accepts "
+                    "everything else): every well-formed stream - the encoder's own output included - is rejected", {})
+    if magic is None:
+        col.silent(rule_id, "au:magic", enc.where(), "magic word is not a constant")
+    elif magic in cmp_consts:
+        col.ok(rule_id, "au:magic", enc.where(words[0][0]), "encoder writes 0x%08x, decoder compares the first word with the same constant" % magic)
+    else:
+        col.bad(rule_id, "au:magic", enc.where(words[0][0]),
+                "encoder writes magic 0x%08x but the decoder compares the first word with %s: the decoder rejects the encoder's output"
+                % (magic, sorted("0x%08x" % c for c in cmp_consts) or "nothing"), {})
 
 
 NON_CONTENT = {"len", "is_empty", "clear", "truncate", "drain", "extend", "extend_from_slice", "push", "capacity", "reserve",
@@ -232,6 +418,43 @@ def _carry_drops(facts, col, body, carry, owner):
             key = "%s:%s:%s" % (owner.q, f, how)
             ok = any(body.dominates(r, bb) and r != bb for r in content_reads.get(f, []))
             why = "its bytes were read (parse/chunks) on every path here"
+            if ok and how in ("clear()", "mem::take", "mem::replace", "assignment", "truncate()"):
+                # a TOTAL drop after a read in whole-sample chunks (`chunks_exact` skips a trailing partial sample): those last
+                # bytes were never read - fine only where the length is established to be whole (`len == size`, `len % size == 0`)
+                CH = ("chunks_exact", "chunks", "array_chunks", "as_chunks")
+
+                def _is_chunked(r):
+                    nm = body.term(r)["f"].get("name") or ""
+                    if nm in CH:
+                        return True
+                    if nm in ("deref", "as_slice", "as_ref", "borrow", "iter"):
+                        def _raw(e_):
+                            n_ = 0
+                            while e_ is not None and e_.k in ("ref", "deref") and n_ < 4:
+                                e_ = e_.a
+                                n_ += 1
+                            return e_
+                        users = [t2["f"].get("name") for b2, t2 in body.calls() if t2["args"]
+                                 and _raw(body.operand_expr(t2["args"][0])) is not None
+                                 and _raw(body.operand_expr(t2["args"][0])).k == "call"
+                                 and getattr(_raw(body.operand_expr(t2["args"][0])), "bb", None) == r]
+                        return bool(users) and all(u in CH for u in users)
+                    return False
+                chunked = [r for r in content_reads.get(f, []) if body.dominates(r, bb) and r != bb and _is_chunked(r)]
+                others = [r for r in content_reads.get(f, []) if body.dominates(r, bb) and r != bb and r not in chunked]
+                if chunked and not others:
+                    whole = False
+                    for fact in facts_at(body, bb):
+                        if fact[0] in ("Eq", "IntEq"):
+                            for side in fact[1:3]:
+                                if hasattr(side, "k"):
+                                    for x in walk(side):
+                                        if x.k == "call" and (x.q or "").split("::")[-1] == "len" and x.args:
+                                            fp = self_field_path(x.args[0])
+                                            if fp and fp[-1] == f:
+                                                whole = True
+                    if not whole:
+                        ok = False
             if not ok:
                 for fact in facts_at(body, bb):
                     if fact[0] == "Bool" and fact[2] is True and (fact[1].q or "").split("::")[-1] == "is_empty" and fact[1].args:
@@ -252,6 +475,7 @@ def _carry_drops(facts, col, body, carry, owner):
 rule_r2 = effects.view_fallback(rule_r2)
 rule_r4 = effects.view_fallback(rule_r4)
 rule_r5 = effects.view_fallback(rule_r5)
+rule_r10 = effects.view_fallback(rule_r10)
 
 def run(ctx):
     facts = ctx.facts("default")
@@ -266,6 +490,13 @@ def run(ctx):
     c16.rule_r5(facts, c19._Retag(ctx, "C16.R5", "C14.R8"))      # read-ahead beyond what the output takes is invisible to the EOF decision
     ctx.floor("C14.R8", 2, "read(2) staging buffers of FileSource and SigMFSource (same rule as C16.R5)")
     c16.rule_r9(facts, ctx, rule_id="C14.R7", scope=lambda b: b.file in ("src/file_source.rs", "src/tcp_source.rs", "src/sigmf.rs", "src/au.rs"))
+    rule_r11(facts, ctx)
+    ctx.ok("C14.R11", "au:scanned", "src/au.rs", "AuEncode::new and AuDecode::work located and scanned (undecided parts are listed as silent)")
+    ctx.floor("C14.R11", 1, "AU header agreement: 6 instances decided today; a header built by a loop or a table is listed as not decided")
+    rule_r10(facts, ctx)
+    ctx.floor("C14.R10", 2, "io::Read::read() staging buffers (FileSource, SigMFSource, TcpSource today; a read straight into the carry buffer is not a staging buffer)")
+    c16.rule_r11(facts, ctx, rule_id="C14.R9")      # a zero-length read() reads as end of data
+    ctx.floor("C14.R9", 2, "io::Read::read() sites with a staging buffer (FileSource, SigMFSource, TcpSource today; same rule as C16.R11)")
     ctx.floor("C14.R7", 4, "EOF verdicts of the byte sources (FileSource, TcpSource, SigMFSource)")
     ctx.floor("C14.R6", 1, "SigMFSource's restart seek (archive member offset) - same rule as C16.R7")
     ctx.floor("C14.R5", 3, "carry-buffer drops in FileSource (drain), SigMFSource (drain), TcpSource (clear)")
